@@ -2758,7 +2758,10 @@ impl<'a, 'ast> Typecheck<'a, 'ast> {
         debug!("Refine {} : {}", expected, actual);
         types::walk_type(&actual, &mut |typ: &RcType| {
             if let Type::Skolem(skolem) = &**self.subs.real(typ) {
-                self.refined_variables.entry(skolem.id).or_insert(());
+                // Register the variable in the scope of the current alternative even if an
+                // enclosing alternative has registered it as well, otherwise the refinement
+                // would stay in effect for the following alternatives of this match
+                self.refined_variables.insert(skolem.id, ());
             }
         });
         let state = unify_type::State::with_refinement(&self.environment, &self.subs, true);
